@@ -260,6 +260,29 @@ example :
       [.tick, .src 0 (.error "a"), .tick, .src 1 (.next 5), .src 1 (.error "b"), .tick, .src 2 .completed, .tick]
       = [.sub 0, .unsub 0, .sub 1, .emit (.next 5), .unsub 1, .sub 2, .emit .completed, .unsub 2] := by decide
 
+/-- **oern_factory_argument.** on_error_resume_next hands to a source FACTORY the error of the source that just failed, and None
+when the previous source completed normally (or at the start) — never an older error. In the machine: (a) a delivered error
+sets the argument of the next action to that error, a delivered completion resets it to none, an element leaves it alone;
+(b) the action that consumes position `idx` (yielding a source or a raising factory) records exactly the current argument. -/
+theorem oern_factory_argument {α} (items : Nat → Item) (st : St SeqSt) (k : Nat) (hk : k ∈ st.p.live) :
+    (∀ e, (step (seqM (α := α) .oern items) st (.src k (.error e))).1.s.arg = some e) ∧
+    (step (seqM (α := α) .oern items) st (.src k .completed)).1.s.arg = none ∧
+    (∀ v, (step (seqM (α := α) .oern items) st (.src k (.next v))).1.s.arg = st.s.arg) ∧
+    (st.s.pending = true → st.p.done = false → (items st.s.idx = .src ∨ ∃ e, items st.s.idx = .raise e) →
+      (step (seqM (α := α) .oern items) st .tick).1.s.calls = st.s.calls ++ [(st.s.idx, st.s.arg)]) := by
+  refine ⟨fun e => ?_, ?_, fun v => ?_, ?_⟩
+  · rw [step_src_state _ _ _ _ hk]; rfl
+  · rw [step_src_state _ _ _ _ hk]; rfl
+  · rw [step_src_state _ _ _ _ hk]; rfl
+  · intro hp hd hi
+    rcases hi with hi | ⟨e, hi⟩ <;> simp [step, seqM, seqTick, hp, hd, hi]
+
+/-- non-vacuity: source 0 fails, source 1 completes normally, the factory at position 2 gets None (not source 0's old error) -/
+example :
+    (final (seqM (α := Nat) .oern (itemsCount (some 3))) seqInit
+      [.tick, .src 0 (.error "boom"), .tick, .src 1 .completed, .tick]).s.calls
+      = [(0, none), (1, some "boom"), (2, none)] := by decide
+
 /-- non-vacuity: an UNLOGGED failing source (`fail`, e.g. `rx.throw(ex)` in the list) under catch is continued over — it takes
 position 1, nothing is subscribed for it in the trace, the next action subscribes source 2, whose completion ends the result -/
 example :
